@@ -5,13 +5,14 @@ import GdVerif.Run.Master
 import GdVerif.Run.Settings
 import GdVerif.Run.Views
 import GdVerif.Run.Games
+import GdVerif.Run.IdCheck
 /-
   gdmodel: the model behind a line protocol.
     gdmodel run        : reads `<id> <entry> <args…>` lines on stdin, prints `<id> <outcome>`
 -/
 open Gd Gd.Run
 
-def allEntries : List (String × (List String → String)) := readerEntries ++ valveEntries ++ masterEntries ++ settingsEntries ++ viewEntries ++ gameEntries
+def allEntries : List (String × (List String → String)) := readerEntries ++ valveEntries ++ masterEntries ++ settingsEntries ++ viewEntries ++ gameEntries ++ idCheckEntries
 
 def runLine (line : String) : String :=
   match line.trimAscii.toString.splitOn " " with
